@@ -324,6 +324,7 @@ Proof.
   pose proof (no_orbits_nrdy (write_features_nob cfg)).
   pose proof (fun acc => no_orbits_nrdy (read_children_nob n cfg acc)).
   pose proof (recv_loop_nrdy cfg). pose proof (init_loop_nrdy n cfg).
+  pose proof (fun d => no_orbits_nrdy (skip_nob n d)).
   struct.
 Qed.
 
